@@ -84,6 +84,10 @@ class RemotePickler36(pickle.Pickler):
                 if RemotePickler36.subject_to_custom_reduce(value):
                     children_names.append(key)
 
+        if state is None:
+            # nothing to restore: the unpickler is not going to call __setstate__, so there is nothing to patch it for
+            return (RemoteState.recreate_obj_without_state, (newobj, newargs), None, listitems, dictitems)
+
         newargs = (newobj, newargs, children_names)
         newobj = RemoteState.recreate_obj_and_patch_setstate
 
